@@ -811,6 +811,9 @@ class SingleInstanceDataset(BaseDataset):
             use_existing_chunks=use_existing_chunks,
         )
         self.confmap_head_config = confmap_head_config
+        # A single-instance sample holds exactly one instance (no padding to the largest
+        # number of instance objects found in a frame of the labels file).
+        self.max_instances = 1
         if not self.use_existing_chunks:
             rank = get_dist_rank()
             if (
